@@ -114,15 +114,32 @@ class Real:
             return [int(c) for c, _ in self.blk.platforms]
         return [int(c) for c, _ in self.blk]
 
+    def written_pairs(self):
+        """what the block's own encoding says: number of items and the channel map, read back through the decoder
+        (independent of how iteration pairs the two lists up)"""
+        try:
+            dec = type(self.blk)._build(io.BytesIO(A.encode(self.blk)), self.blk.format.value)
+            other = Real(self.kind, self.rng)
+            other.blk = dec
+            return (len(other.items()), other.chans())
+        except Exception as e:
+            return ("raises " + type(e).__name__, None)
+
     def state(self):
         try:
             items = [self.ids.get(id(o), -1) for o in self.items()]
         except Exception as e:
             return ("unreadable", type(e).__name__)
         try:
-            return (self.chans(), items)
+            st = (self.chans(), items)
         except Exception as e:
             return ("unencodable:" + type(e).__name__, items)
+        try:
+            n = len(self.blk)
+        except Exception:
+            n = None
+        self.extra = (n, self.written_pairs())
+        return st
 
 
 def gen_edit(r, rng):
@@ -189,6 +206,28 @@ def gen_edit(r, rng):
         if y < 0.6:
             idx = [rng.choice([0, 0, 1, len(items)]) for _ in range(rng.randrange(1, 3))]
             return (lambda: r.blk.remove_platforms(idx), [Sym("removeMany"), idx], "remove many")
+        if y < 0.68:
+            # bulk add from the caller's iterable that RAISES after delivering k platforms (an error of the caller's own, or an
+            # interrupt): whatever was taken in before that must be there WITH its channel - the two lists stay aligned
+            new = [r.new_item() for _ in range(rng.randrange(1, 4))]
+            k = rng.randrange(0, len(new) + 1)
+            boom = rng.choice([OSError, KeyError, KeyboardInterrupt])
+
+            def gen():
+                for j, (_, it) in enumerate(new):
+                    if j == k:
+                        raise boom("the caller's iterable failed")
+                    yield it
+                if k == len(new):
+                    raise boom("the caller's iterable failed")
+
+            def bulk():
+                try:
+                    r.blk.add_platforms(gen())
+                except BaseException as e:
+                    if not isinstance(e, boom):
+                        raise
+            return (bulk, [Sym("addMany"), [[m, Sym("none")] for m, _ in new[:k]]], "add many from an iterable that raises midway")
         if y < 0.8:
             new = [r.new_item() for _ in range(rng.randrange(1, 3))]
             if rng.random() < 0.5:
@@ -226,7 +265,7 @@ def run(ctx):
         except Exception as e:
             ctx.fail(f"{kind}: cannot create the start block ({how}): {type(e).__name__}: {e}", dict(kind=kind, start=how), ident=f"{kind} start {how}")
             continue
-        steps.append((None, "start:" + how, None, r.state()))
+        steps.append((None, "start:" + how, None, r.state(), getattr(r, "extra", None)))
         edits = []
         for _ in range(rng.randrange(2, 13)):
             thunk, medit, desc = gen_edit(r, rng)
@@ -236,11 +275,14 @@ def run(ctx):
             except Exception as e:
                 exc = e
             edits.append(medit)
-            steps.append((medit, desc, exc, r.state()))
+            st_now = r.state()
+            steps.append((medit, desc, exc, st_now, getattr(r, "extra", None)))
         runs.append((kind, how, start, edits, steps, r))
     replies = common.drv_batch([[Sym("cm.run"), start, edits] for _, _, start, edits, _, _ in runs])
     for (kind, how, start, edits, steps, r), rep in zip(runs, replies):
         descs = [s[1] for s in steps]
+        extras = [s[4] for s in steps]
+        steps = [s[:4] for s in steps]
         removed_then_added = any("remove" in d for d in descs) and any("add" in d for d in descs[[i for i, d in enumerate(descs) if "remove" in d][0]:]) if any("remove" in d for d in descs) else False
         ctx.case((kind, how, str(edits)), nontrivial=removed_then_added, sample=dict(kind=kind, start=how, edits=descs[1:]),
                  tags=[kind, "start=" + how] + [f"{kind}:{d}:{'raised' if e else 'ok'}" for _, d, e, _ in steps[1:]])
@@ -257,6 +299,16 @@ def run(ctx):
                 ctx.fail(f"{kind} after {desc}: the block can no longer be iterated/encoded ({st[0]})", rp, ident=f"{kind} unusable after {desc.split(' (')[0]}")
                 break
             chans, items = st
+            ex = extras[i]
+            if ex is not None:
+                n_len, (n_written, map_written) = ex
+                if n_len is not None and n_len != len(items):
+                    ctx.fail(f"{kind} after {desc}: len(block) = {n_len} but it yields {len(items)} (channel, item) pairs", rp, ident=f"{kind} len != pairs after {desc.split(' (')[0]}")
+                    break
+                if n_written != len(items) or map_written != chans:
+                    ctx.fail(f"{kind} after {desc}: the block yields pairs on channels {chans} but its encoding holds {n_written} items with channel map {map_written}", rp,
+                             ident=f"{kind} encoding != pairs after {desc.split(' (')[0]}")
+                    break
             if len(chans) != len(items):
                 ctx.fail(f"{kind} after {desc}: {len(chans)} channels for {len(items)} items", rp, ident=f"{kind} misaligned after {desc.split(' (')[0]}")
                 break
